@@ -3,8 +3,20 @@ package middleware
 import (
 	"log/slog"
 	"net/http"
+	"net/url"
 	"reservoir/webserver/dashboard/csp"
+	"strings"
 )
+
+// originIsHost reports whether an Origin header names the host the request was sent to.
+// An opaque origin ("null") or one that does not parse is somebody else's.
+func originIsHost(origin string, host string) bool {
+	u, err := url.Parse(origin)
+	if err != nil || u.Host == "" {
+		return false
+	}
+	return strings.EqualFold(u.Host, host)
+}
 
 func Harden(next http.Handler) http.Handler {
 	return http.HandlerFunc(func(w http.ResponseWriter, r *http.Request) {
@@ -22,6 +34,14 @@ func Harden(next http.Handler) http.Handler {
 		origin := r.Header.Get("Origin")
 
 		isSame := origin == "" || (site == "" || site == "same-origin" || site == "same-site")
+		if site == "cross-site" {
+			// The browser says so itself. It sends no Origin with a plain cross-site GET, so a missing Origin
+			// does not make the request same-site.
+			isSame = false
+		} else if site == "" && origin != "" {
+			// No Sec-Fetch-Site (a browser that predates it): the Origin has to be our own.
+			isSame = originIsHost(origin, r.Host)
+		}
 		allowed := isSame
 
 		if !allowed {
